@@ -450,3 +450,43 @@ Example C09_tr_push_clip_runs :
                   skipn 4090 (peek m1 G_ibuf 4096) = repeat (VInt 120) 6
   | _ => False end.
 Proof. vm_compute. repeat split; reflexivity. Qed.
+
+From NV Require TrRepeat4.
+
+(* ---------------------------------------------------------------------------------------------- *)
+(* vc_execute (`@r`, `@@`, `@\x`) on the translated C text (coq/TrRepeat4.v), for every oracle answering vi_read() as the source model says and
+   reg_get() as regget_ok says (the register's text: char cells and a terminator in a block outside the key source; the key source, vi_arg1 and
+   the static `reg` left alone).  c = the key after `@` (exec_key: after a backslash the next key with bit 7 set), not ESC / ^C / end of input;
+   `@` stands for the register of the last execution (the static reg, r0); the register r is set: reg = r is stored and the register's cells are
+   pushed max(1, vi_arg1) times -- so by C09_tr_push_n_keys the keys delivered next are the register's text N times and then what was pending when
+   the copies fit (C09_push_clip_refuted / KF-PUSH-CLIP when they do not) *)
+Theorem C09_tr_vc_execute : forall (ext : oracle) kt, kt_fresh kt -> reads_ok ext kt -> forall a1, -2147483648 <= a1 <= 2147483647 ->
+  ~ src_block kt G_vi_arg1 -> forall r0, -2147483648 <= r0 <= 2147483647 -> ~ src_block kt G_vc_execute__reg ->
+  forall (m : mem) (s : src) rb cells d fuel,
+  src_at kt m s -> cell_at m G_vi_arg1 a1 -> cell_at m G_vc_execute__reg r0 ->
+  let c := fst (TrRepeat4.exec_key s) in let s1 := snd (TrRepeat4.exec_key s) in
+  0 <= c -> c <> 27 -> c <> 3 ->
+  let r := if c =? 64 then r0 else c in
+  0 <= r -> TrRepeat4.regget_ok ext kt r (Some (rb, cells)) a1 -> TrRepeat4.nz_chars cells -> Z.of_nat (length cells) <= 2147483647 -> rb <> G_vi_arg1 ->
+  (Z.to_nat (Z.max 1 a1) < fuel)%nat ->
+  exists m', callx ext cprog fuel (S (S d)) F_vc_execute [] m = Ok (VUndef, m') /\
+             src_at kt m' (push_n_m (Z.to_nat (Z.max 1 a1)) cells s1) /\ cell_at m' G_vc_execute__reg r.
+Proof. exact TrRepeat4.tr_vc_execute_push. Qed.
+Print Assumptions C09_tr_vc_execute.
+
+(* the translated vc_execute RUNS: the terminal holds `a`, register a is "dw" (an oracle for reg_get that answers with a block holding d w 0),
+   vi_arg1 = 2: ibuf = d w d w, ibuf_cnt = 5 (the typed `a` left ibuf_cnt = 1), ibuf_pos = 1, the static reg = 'a'; a following `@@` (terminal `@`)
+   pushes the same register again in front *)
+Example C09_tr_vc_execute_runs :
+  let kt := length cglobals in
+  let m0 := upd (cglobals ++ [map VInt [97; 64]; map VInt [100; 119; 0]]) G_vi_arg1 [VInt 2] in
+  let ext : oracle := fun f args m => if Nat.eqb f X_reg_get then Ok (VPtr (S kt) 0, m) else link (kern kt) 50 5 f args m in
+  match callx ext cprog 50 3 F_vc_execute [] m0 with
+  | Ok (_, m1) =>
+    peek1 m1 G_ibuf_cnt = Some 5 /\ peek1 m1 G_ibuf_pos = Some 1 /\ peek m1 G_ibuf 5 = map VInt [97; 100; 119; 100; 119] /\
+    peek1 m1 G_vc_execute__reg = Some 97 /\
+    match callx ext cprog 50 3 F_vc_execute [] (upd (upd m1 G_ibuf_pos [VInt 5]) G_vi_arg1 [VInt 0]) with
+    | Ok (_, m2) => peek1 m2 G_ibuf_cnt = Some 3 /\ peek m2 G_ibuf 3 = map VInt [64; 100; 119] /\ peek1 m2 G_vc_execute__reg = Some 97
+    | _ => False end
+  | _ => False end.
+Proof. vm_compute. repeat split; reflexivity. Qed.
